@@ -43,10 +43,11 @@ NORMAL_QVEL = {"Ant", "HalfCheetah", "InvertedDoublePendulum"}
 def units(tier):
     quick = tier == "quick"
     # the 16 workers take units in this order: most expensive compilations first
-    u = [] if quick else [{"name": "g1", "timeout": 3000}]
-    u += [{"name": f"mj-{n}", "timeout": 2400} for n in (MUJOCO_QUICK if quick else MUJOCO_ALL[::-1])]
-    u += [{"name": f"finite{i}", "timeout": 1500} for i in range(2 if quick else 4)]
-    u += [{"name": f"cc-{n}", "timeout": 1500} for n in CLASSIC]
+    to = 900 if quick else 3000  # generous: the machine may be shared; an idle one needs a fraction of this
+    u = [] if quick else [{"name": "g1", "timeout": to}]
+    u += [{"name": f"mj-{n}", "timeout": to} for n in (MUJOCO_QUICK if quick else MUJOCO_ALL[::-1])]
+    u += [{"name": f"finite{i}", "timeout": to} for i in range(2 if quick else 4)]
+    u += [{"name": f"cc-{n}", "timeout": to} for n in CLASSIC]
     return u
 
 
@@ -298,7 +299,7 @@ class Rig:
         self.base = _env_layers(env)[-1]
         self.pred, self.fp, self.continuous = _support(self.base)
         self.comps = _comps()
-        self.kc = 0
+        self.kc, self._k0 = 0, None
         self.end_fps, self.enders, self.dead = [], [], False
         self.n_tl = len(_tl_depths(env))
 
@@ -310,8 +311,12 @@ class Rig:
         return self
 
     def key(self):
+        from jax import random as jr
+
         self.kc += 1
-        return self.ctx.key(self.kc)
+        if self._k0 is None:
+            self._k0 = self.ctx.key(int.from_bytes(self.tag.encode()[:64], "little") % (2**31 - 1))
+        return jr.fold_in(self._k0, self.kc)
 
     def where(self, **kw):
         d = {"env": self.tag}
@@ -718,7 +723,7 @@ def u_classic(ctx, name):
     specs += [_random_spec(ctx.rng, base, int(ctx.rng.integers(2, 5))) for _ in range(n_stacks)]
     if not ctx.quick:
         specs.append(["TimeLimit"])
-    _run_builtin(ctx, name, base, specs, chains=ctx.n(9, 36), horizon=ctx.n(24, 64), dt=dt, resets=64,
+    _run_builtin(ctx, name, base, specs, chains=ctx.n(9, 30), horizon=ctx.n(24, 64), dt=dt, resets=64,
                  family="classic")
     ctx.require("steps_judged", ctx.n(200, 2000))
     ctx.require("boundary_steps_judged", ctx.n(15, 150))
@@ -741,10 +746,11 @@ def u_mujoco(ctx, name):
         specs = [spec1] + ([None] if name == "InvertedPendulum" else [])
     else:
         specs = [None, spec1, ["TimeLimit"]]
-    _run_builtin(ctx, name, base, specs, chains=ctx.n(6, 24), horizon=ctx.n(16, 40), dt=dt, resets=64,
-                 family="mujoco")
-    ctx.require("steps_judged", ctx.n(80, 800))
-    ctx.require("boundary_steps_judged", ctx.n(8, 80))
+    heavy = name in ("Humanoid", "HumanoidStandup", "Ant")
+    _run_builtin(ctx, name, base, specs, chains=ctx.n(6, 10 if heavy else 16), horizon=ctx.n(16, 24 if heavy else 32),
+                 dt=dt, resets=64, family="mujoco")
+    ctx.require("steps_judged", ctx.n(80, 600))
+    ctx.require("boundary_steps_judged", ctx.n(8, 60))
     ctx.require("truncation_only_endings", 5)
     ctx.require("resets_judged", 64)
     ctx.require("freshness_sets_judged", 1)
@@ -982,7 +988,7 @@ def u_finite(ctx, part):
         rig = Rig(ctx, tag, env0)
         nb = len(_env_layers(env0)) - 1
         n_tl = rig.n_tl
-        for j in range(ctx.n(5, 25)):
+        for j in range(ctx.n(5, 15)):
             if rig.dead:
                 break
             tabs, B = _draw_tables(rng, kind, j)
@@ -1043,8 +1049,8 @@ def u_finite(ctx, part):
                                       dict(det, mismatch=m, returned=[s2, t2], obs_is_successor_obs=o_succ))
                     state, (s, t, ret, start) = nstate, (s2, t2, ret2, start2)
             rig.freshness(n_resets=64, n_pairs=32)
-    ctx.require("mdp_replay_steps", ctx.n(1500, 15000))
-    ctx.require("mdp_replay_boundaries", ctx.n(300, 3000))
+    ctx.require("mdp_replay_steps", ctx.n(1500, 10000))
+    ctx.require("mdp_replay_boundaries", ctx.n(300, 2000))
     ctx.require("terminal_only_endings", 30)
     ctx.require("truncation_only_endings", 30)
     ctx.require("both_flags_endings", 10)
